@@ -300,3 +300,13 @@ h4v_stream_writable(int id)
 {
     return (id >= 0 && id < MAXSTREAM) ? swr[id] : 0;
 }
+
+/* ---------------------------------------------------------------- coverage build only (bin/build_lib.sh <dir> cov) */
+#ifdef H4V_COV
+extern void __gcov_dump(void);
+void
+h4v_gcov_dump(void)
+{
+    __gcov_dump();
+}
+#endif
